@@ -164,6 +164,7 @@ def run(ctx):
     ok = any(isinstance(n, ast.Return) and n.value is not None and "self.basic_ranks[" in norm(n.value) for n in walk_no_nested(gr))
     ctx.ob("C01.R3", S + ":CSemantics._get_rank", "basic types are ranked through basic_ranks", ok, construct="rank-from-table")
     _promo_rules(ctx)
+    _switch_rules(ctx)
 
 
 def _promo_rules(ctx):
@@ -217,3 +218,41 @@ def _promo_rules(ctx):
         ok = bool(ctor) and bool(prom) and all(norm(c.args[1]) == norm(prom[0].targets[0]) for c in ctor)
         ctx.ob("C01.R4", S + ":CSemantics.on_unop", "unary `%s` builds its node from the promoted operand" % o, ok, construct="unary-promote:" + o,
                node=ctor[0] if ctor else ubr[o][0])
+
+
+def _switch_rules(ctx):
+    """R5: C11 6.8.4.2p5 - the integer promotions are performed on the controlling expression and every case
+    constant is converted to the promoted type"""
+    from .. import sym
+    ctx.rule("C01.R5", "switch: the controlling expression is promoted before the switch context is created; every case constant is converted to that (promoted) type; the Switch node tests the same promoted expression", floor=5)
+    en = ctx.fn(S, "CSemantics.on_switch_enter")
+    site = S + ":CSemantics.on_switch_enter"
+    mk = [c for c in ast.walk(en) if isinstance(c, ast.Call) and norm(c.func).endswith("CSwitchContext")]
+    ctx.need(len(mk) == 1 and mk[0].args, "on_switch_enter: creation of the switch context not found")
+    arg = mk[0].args[0]
+    p = en.args.args[1].arg
+    prom = [n for n in en.body if isinstance(n, ast.Assign) and isinstance(n.value, ast.Call) and norm(n.value.func) == "self.promote" and norm(n.value.args[0]) == p]
+    ok = (isinstance(arg, ast.Call) and norm(arg.func) == "self.promote") or (bool(prom) and norm(arg) == norm(prom[0].targets[0]) and prom[0].lineno < mk[0].lineno)
+    ctx.ob("C01.R5", site, "the switch context is created from the PROMOTED controlling expression (its type is the type the case labels are converted to)", ok, construct="context-from-promoted", node=mk[0], detail=norm(mk[0]))
+    ei = [c for c in ast.walk(en) if isinstance(c, ast.Call) and norm(c.func) == "self.ensure_integer"]
+    ctx.ob("C01.R5", site, "a non-integer controlling expression is rejected", bool(ei), construct="ensure-integer")
+    oc = ctx.fn(S, "CSemantics.on_case")
+    site = S + ":CSemantics.on_case"
+    evs = [n for n in ast.walk(oc) if isinstance(n, ast.Assign) and isinstance(n.value, ast.Call) and norm(n.value.func) == "self.eval_expr"]
+    ctx.need(len(evs) >= 3, "on_case: evaluation of the case constants not found")
+    for i, e in enumerate(evs):
+        v = norm(e.value.args[0])
+        body = e._parent.body if e in getattr(e._parent, "body", []) else e._parent.orelse
+        co = [n for n in body if isinstance(n, ast.Assign) and norm(n.targets[0]) == v and isinstance(n.value, ast.Call) and norm(n.value.func) == "self.coerce" and n.lineno < e.lineno]
+        ok = bool(co) and norm(co[-1].value.args[1]).endswith(".typ") and norm(co[-1].value.args[1]).split(".")[0] in ("context",)
+        ctx.ob("C01.R5", site, "case constant `%s` is converted to the type of the switch context before it is evaluated and compared with the other labels" % v, ok, construct="case-coerced:%d" % i, node=e)
+    ex = ctx.fn(S, "CSemantics.on_switch_exit")
+    sw = [c for c in ast.walk(ex) if isinstance(c, ast.Call) and norm(c.func).endswith("statements.Switch")]
+    env = sym.single_assign_env(ex)
+    ok = len(sw) == 1 and norm(sw[0].args[0]) == "context.expression" and "switch_stack.pop" in norm(env.get("context", ast.parse("x").body[0].value))
+    ctx.ob("C01.R5", S + ":CSemantics.on_switch_exit", "the Switch node tests the expression stored in the context (no second, different conversion at exit)", ok, construct="switch-uses-context-expression", detail=norm(sw[0]) if sw else "")
+    cx = ctx.cls("ppci/lang/c/semantics.py", "CSwitchContext", optional=True) or ctx.project.cls("ppci/lang/c/scope.py", "CSwitchContext", optional=True)
+    if cx is not None:
+        init = [m for m in cx.body if isinstance(m, ast.FunctionDef) and m.name == "__init__"]
+        ok = bool(init) and any(isinstance(n, ast.Assign) and norm(n.targets[0]) == "self.typ" and norm(n.value).endswith(".typ") and norm(n.value).split(".")[0] == init[0].args.args[1].arg for n in ast.walk(init[0]))
+        ctx.ob("C01.R5", "%s:CSwitchContext" % cx._module.rel, "the context's type is the type of the expression it was created with", ok, construct="context-typ")
